@@ -131,6 +131,9 @@ def run(repo, tier):
     # ------------------------------------------------------------ purity
     out += pure_params(repo, sm, ["X"])
     out += pure_params(repo, prod, ["X"])
+    from .c03 import args_as_given_rule
+    if repo.has_func("ism.saturation_mutagenesis"):
+        out += args_as_given_rule(repo.func("ism.saturation_mutagenesis"))
     return out
 
 
